@@ -281,6 +281,36 @@ def ban_instance(D, lead):
             for i in range(D):
                 for j in range(i + 1, D):
                     yield 'direction-untouched[%s,%d,%d]' % (li, i, j), sp.eq(g[li + (i,)] * w[li + (j,)], g[li + (j,)] * w[li + (i,)])
+            # the factor: g = w * u / t with u = sqrt(w^H Phi Phi w), t = |w^H Phi w|.  Ghost intermediates: the two Hermitian forms
+            # and their square roots recomputed with the code's own NumPy calls (purified roots are memoised per argument, so the
+            # ghosts are the code's values); the lemmas relate them to the defining real quantities and are cut in.
+            N_arr = np.einsum('...a,...ab,...bc,...c->...', np.conj(inp['w']), inp['noise'], inp['noise'], inp['w'])
+            D_arr = np.einsum('...a,...ab,...b->...', np.conj(inp['w']), inp['noise'], inp['w'])
+            Nn, Dn = cells(N_arr)[li], cells(D_arr)[li]
+            if sp.symbolic:
+                P = [[cells(inp['noise'])[li + (i, j)] for j in range(D)] for i in range(D)]
+                wv = [w[li + (i,)] for i in range(D)]
+                Pw = [sp.sum(P[i][j] * wv[j] for j in range(D)) for i in range(D)]
+                yield 'lemma:numerator-form-is-|Phi w|^2[%s]' % (li,), sp.and_(sp.eq(sp.im(Nn), 0.0), sp.eq(sp.re(Nn), sp.sum(sp.abs2(x) for x in Pw)))
+                yield 'lemma:numerator-form-nonnegative[%s]' % (li,), sp.ge(sp.re(Nn), 0.0)
+                s_ = cells(np.sqrt(N_arr))[li]
+                t_ = cells(np.sqrt(D_arr * np.conj(D_arr)))[li]
+                yield 'lemma:complex-root-is-the-real-root[%s]' % (li,), sp.and_(sp.eq(sp.im(s_), 0.0), sp.ge(sp.re(s_), 0.0),
+                                                                                 sp.eq(sp.re(s_) * sp.re(s_), sp.re(Nn)))
+                yield 'lemma:denominator-root[%s]' % (li,), sp.and_(sp.eq(sp.im(t_), 0.0), sp.ge(sp.re(t_), 0.0), sp.eq(sp.re(t_) * sp.re(t_), sp.abs2(Dn)))
+                yield 'lemma:denominator-form-nonzero[%s]' % (li,), sp.gt(sp.re(t_), 0.0)
+                with np.errstate(all='ignore'):
+                    sn, sd = np.sqrt(N_arr), np.sqrt(D_arr * np.conj(D_arr))
+                    qg = np.divide(sn, sd, out=np.zeros_like(sn), where=sd != 0)      # the code's guarded quotient
+                    qp = sn / sd
+                    a_, a_p = cells(np.abs(qg))[li], cells(np.abs(qp))[li]
+                yield 'lemma:guard-inactive[%s]' % (li,), sp.eq(cells(qg)[li], cells(qp)[li])
+                yield 'lemma:plain-factor[%s]' % (li,), sp.eq(a_p * sp.re(t_), sp.re(s_))
+                yield 'lemma:modulus-of-guarded-quotient[%s]' % (li,), sp.eq(a_, a_p)
+                # a = |s / t| = u / t  (u, t real, t > 0): the factor is sqrt(w^H Phi Phi w) / |w^H Phi w|
+                yield 'factor-is-root-of-numerator-over-denominator[%s]' % (li,), sp.eq(a_ * sp.re(t_), sp.re(s_))
+                for i in range(D):
+                    yield 'output-is-vector-times-factor[%s,%d]' % (li, i), sp.eq(g[li + (i,)], w[li + (i,)] * a_)
             if not sp.symbolic:
                 # the positive real factor sqrt(w^H Phi Phi w)/(w^H Phi w)  (float evaluation: bounded)
                 P = np.asarray(inp['noise'])[li]
@@ -290,7 +320,7 @@ def ban_instance(D, lead):
                     yield 'factor[%s,%d]' % (li, i), sp.eq(g[li + (i,)], wv[i] * fac)
 
     return Instance('C12', BF + 'blind_analytic_normalization', 'D%d-lead%s' % (D, 'x'.join(map(str, lead)) or '0'),
-                    make, call, ensures, crosscheck=False, timeout=30.0)
+                    make, call, ensures, crosscheck=False, timeout=30.0, scales=(1.0, 1e-4, 1e3, 1e-7, 1e-2, 1e-9, 1e5, 1e-5))
 
 
 def rayleigh_bounded_instance():
